@@ -171,11 +171,12 @@ Theorem C07_kernel_is_model :
   (forall nc np nm npg, kproto_args_ok nc np nm npg = proto_args_ok nc np nm npg) /\
   (forall nc np nm npg, kcfg_args_ok nc np nm npg = cfg_args_ok nc np nm npg) /\
   (forall crit k, ksort_select crit k = sort_select crit k) /\
-  (forall n k u, (0 < k)%nat -> kxmapix n k u = xmapix n k u).
+  (forall n k u, (0 < k)%nat -> kxmapix n k u = xmapix n k u) /\
+  (forall nc np nm nx, kuc_int_bounds nc np nm nx = uc_int_bounds nc np nm nx).
 Proof.
   exact (conj kcfg_subset_model (conj kcfg_binary_model (conj kcfg_integer_model (conj kcfg_real_f_model (conj kcfg_real_q_model
         (conj kcfg_mate_model (conj kcfg_integer_mate_model (conj kcfg_binary_mate_model (conj kcfg_real_mate_f_model (conj kcfg_real_mate_q_model
-        (conj kproto_args_ok_model (conj kcfg_args_ok_model (conj ksort_select_model kxmapix_model))))))))))))).
+        (conj kproto_args_ok_model (conj kcfg_args_ok_model (conj ksort_select_model (conj kxmapix_model kuc_int_bounds_model)))))))))))))).
 Qed.
 Print Assumptions C07_kernel_is_model.
 
@@ -395,18 +396,57 @@ Example C07_session_hyps_satisfiable :
   session {| st_nc := 3; st_np := 2; st_decn := [1;2;3]%Z; st_xmap := [] |} [OpMutateDecn [5;6]%Z; OpDeepCopy; OpSetShape 1 1].
 Proof. split; [repeat constructor | reflexivity]. Qed.
 
-(** * finding C07-uc-integer-bounds-shape (open): UsefulnessCriterionIntegerSelection.problem builds the upper bound of its decision
-    space from the protocol's nmating ARRAY: the two bounds can be stacked iff the protocol asks for one cross; for every valid
-    cross design with two or more crosses select() raises instead of producing a configuration *)
-Theorem C07_uc_integer_bounds_refuted : exists nc np nm nx,
-  proto_args_ok nc np (MArray nm) (MScalar 1%Z) = true /\ (0 < nx)%nat /\ uc_int_bounds nc np nm nx = None.
-Proof. exact uc_int_bounds_refuted. Qed.
-Print Assumptions C07_uc_integer_bounds_refuted.
+(** * UsefulnessCriterionIntegerSelection.problem: the bounds of the integer decision space over the candidate crosses
+    (finding C07-uc-integer-bounds-shape, REPAIRED: the upper bound is the one number nparent * sum(nmating) repeated once per
+    candidate cross).  About the program assembled from the regenerated kernel expressions, for EVERY cross design a protocol
+    accepts (any number of crosses, any per-cross nmating array) and every number of candidate crosses: the two bounds are
+    stacked (select() does not fail there), both have one entry per candidate cross, the lower bound is 0 and the upper bound
+    nparent * sum(nmating) everywhere; the upper bound is positive and at least ncross; every allocation of the design's
+    matings - a fortiori of its ncross crosses - to the candidate crosses (non-negative counts with a total of at most
+    sum(nmating)) is a point of the decision space. *)
+Theorem C07_kernel_uc_integer_bounds : forall nc np nm npg nx,
+  proto_args_ok nc np (MArray nm) npg = true ->
+  exists b, kuc_int_bounds nc np nm nx = Some b /\
+    b = (repeat 0%Z nx, repeat (Z.of_nat np * sumZ nm)%Z nx) /\ length (fst b) = nx /\ length (snd b) = nx /\
+    (Z.of_nat nc <= Z.of_nat np * sumZ nm)%Z /\ (0 < Z.of_nat np * sumZ nm)%Z /\
+    (forall x, length x = nx -> Forall (fun v => 0 <= v)%Z x -> (sumZ x <= sumZ nm)%Z -> in_bounds b x = true).
+Proof. exact kuc_int_bounds_spec. Qed.
+Print Assumptions C07_kernel_uc_integer_bounds.
 
-Theorem C07_uc_integer_bounds_partial : forall nc np nm nx, length nm = nc -> (0 < nx)%nat ->
-  (uc_int_bounds nc np nm nx <> None <-> nc = 1%nat).
-Proof. exact uc_int_bounds_iff. Qed.
-Print Assumptions C07_uc_integer_bounds_partial.
+(** the hand model, without any hypothesis on the design: the bounds are always stacked *)
+Theorem C07_uc_integer_bounds : forall nc np nm nx,
+  uc_int_bounds nc np nm nx = Some (repeat 0%Z nx, repeat (Z.of_nat np * sumZ nm)%Z nx).
+Proof. exact uc_int_bounds_total. Qed.
+Print Assumptions C07_uc_integer_bounds.
+
+(** where the former code worked (one cross) the repaired code computes the same bounds *)
+Theorem C07_uc_integer_bounds_agrees_with_old_on_one_cross : forall np m nx,
+  old_uc_int_bounds 1 np [m] nx = uc_int_bounds 1 np [m] nx.
+Proof. exact uc_int_bounds_agrees_with_old_on_one_cross. Qed.
+Print Assumptions C07_uc_integer_bounds_agrees_with_old_on_one_cross.
+
+(** regression witnesses about the FORMER code ([old_uc_int_bounds]: numpy.repeat(ncross * nparent * nmating_ARRAY, len(xmap)),
+    every element repeated): its bounds could be stacked iff the protocol asked for one cross; for ncross = 2, nparent = 2,
+    nmating = [1, 1] and three candidate crosses it failed where the repaired code returns the bounds (0, 4) *)
+Theorem C07_old_uc_integer_bounds_refuted : exists nc np nm nx,
+  proto_args_ok nc np (MArray nm) (MScalar 1%Z) = true /\ (0 < nx)%nat /\ old_uc_int_bounds nc np nm nx = None /\
+  uc_int_bounds nc np nm nx = Some (repeat 0%Z nx, repeat 4%Z nx).
+Proof. exact old_uc_int_bounds_refuted. Qed.
+Print Assumptions C07_old_uc_integer_bounds_refuted.
+
+Theorem C07_old_uc_integer_bounds_one_cross_only : forall nc np nm nx, length nm = nc -> (0 < nx)%nat ->
+  (old_uc_int_bounds nc np nm nx <> None <-> nc = 1%nat).
+Proof. exact old_uc_int_bounds_iff. Qed.
+Print Assumptions C07_old_uc_integer_bounds_one_cross_only.
+
+Example C07_uc_integer_bounds_hyps_satisfiable :
+  proto_args_ok 3 2 (MArray [2;1;3]%Z) (MScalar 1%Z) = true /\
+  kuc_int_bounds 3 2 [2;1;3]%Z 3 = Some ([0;0;0]%Z, [12;12;12]%Z) /\
+  in_bounds ([0;0;0]%Z, [12;12;12]%Z) [6;0;0]%Z = true /\ in_bounds ([0;0;0]%Z, [12;12;12]%Z) [1;1;1]%Z = true /\
+  in_bounds ([0;0;0]%Z, [12;12;12]%Z) [13;0;0]%Z = false /\ in_bounds ([0;0;0]%Z, [12;12;12]%Z) [1;-1;1]%Z = false /\
+  length [2;1;3]%Z = 3%nat /\ old_uc_int_bounds 3 2 [2;1;3]%Z 3 = None /\
+  old_uc_int_bounds 1 2 [3]%Z 3 = Some ([0;0;0]%Z, [6;6;6]%Z).
+Proof. repeat split. Qed.
 
 Example C07_hyps_satisfiable :
   (* three selfed crosses, three descent passes, then a shuffle within every cross *)
